@@ -50,7 +50,7 @@ pub fn spec(id: &str) -> Option<CheckSpec> {
             level: "fault_enumeration",
             owns: &["fault-surface", "content-integrity", "lookup", "read-exact", "listing", "missing-content", "write-ok", "commit-accept", "retry", "crash-atomicity", "checked-read", "extract", "extract-leftover", "removal", "exists", "format"],
             runs: (140, 2500),
-            rule: "a run = one victim call (write*, streamed write+commit, read*, Reader+check, copy*, hard_link*, remove*, remove_hash*, list, metadata*, link_to*) x flavour x cache shape (cold, warm, bucket > 8 KiB, content > one read buffer); inside it EVERY filesystem system call of the victim x each applicable errno (and short-write-then-ENOSPC for data writes) is injected one at a time; the call must return Err or a truthful Ok, never panic/hang; afterwards all other entries read back exactly, content area passes I1, the victim key is exactly old or new, and the same call repeated without faults succeeds. Non-trivial = the errno was actually delivered; distinct by trace hash. Also: faults that persist (every later call of that kind on that file fails), pure short writes, EINTR, victims whose commit is going to be rejected, fault pairs (thorough); in a fifth of the runs the SAME process makes the failed call again (state the failed attempt left inside the process is judged strictly); async victims run under first / last / seeded-random schedules of their own threads",
+            rule: "a run = one victim call (write*, streamed write+commit, read*, Reader+check, copy*, hard_link*, remove*, remove_hash*, list, metadata*, link_to*) x flavour x cache shape (cold, warm, bucket > 8 KiB, content > one read buffer); inside it EVERY filesystem system call of the victim x each applicable errno (and short-write-then-ENOSPC for data writes) is injected one at a time; the call must return Err or a truthful Ok, never panic/hang; afterwards all other entries read back exactly, content area passes I1, the victim key is exactly old or new, and the same call repeated without faults succeeds. Non-trivial = the errno was actually delivered; distinct by trace hash. Also: faults that persist (every later call of that kind on that file fails), pure short writes, EINTR, victims whose commit is going to be rejected, fault pairs (thorough); in a fifth of the runs the SAME process makes the failed call again (state the failed attempt left inside the process is judged strictly); async victims run under first / last / seeded-random schedules of their own threads. 1 run in 12 is the full-disk family: the cache directory is a size-limited tmpfs of 128 KiB - 1 MiB mounted by the simulator (skipped, and counted in probe tiny_fs_unavailable, where mounting is not permitted) that really fills up while one traced client stores, removes and reads values; ENOSPC arrives wherever the kernel raises it, including the page fault of a mapped temp file (the client then dies of SIGBUS, which is a violation); a failed call must leave its key exactly old or new",
             assumptions: A_SYS,
         },
         "C15" => CheckSpec {
@@ -671,6 +671,13 @@ pub fn run_plan(ctx: &mut Ctx, sc: &Value, plan: &Value, tag: &str) -> Sub {
                         // the key is exactly old or new, and the rest of the program goes on
                         *ex.sub.faults.entry("future_cancelled".into()).or_insert(0) += 1;
                         settle_victim(&mut ex.it, &st2, &pre, &mut ex.sub, "a cancelled future");
+                        ex.it.m.index_faulted = false;
+                    }
+                    Some(r) if oracle == "natural" && r["r"] == "err" && (matches!(r["os"].as_i64(), Some(28) | Some(122)) || r["kind"] == "StorageFull" || r["kind"] == "QuotaExceeded" || r["msg"].as_str().map(|m| m.to_ascii_lowercase().contains("no space left")).unwrap_or(false)) => {
+                        // the filesystem is really full: the call may fail with that error; the key is exactly old or
+                        // new, everything else is untouched (judged by the audits that follow)
+                        *ex.sub.faults.entry("disk_full_natural".into()).or_insert(0) += 1;
+                        settle_victim(&mut ex.it, &st2, &pre, &mut ex.sub, "a full disk");
                         ex.it.m.index_faulted = false;
                     }
                     Some(r) if !is_victim => {
@@ -1389,7 +1396,73 @@ fn gen_c04(rng: &mut Rng, r: u64) -> Value {
            "plan":{"kind":"enumerate","mode":"kill","torn_index_every_length":true,"schedule":victim_schedule(rng, f.1)},"oracle":"fault"})
 }
 
+/// The cache directory is a filesystem of a few hundred KiB that really fills up while one client stores, re-stores,
+/// removes and reads values: ENOSPC arrives wherever the kernel raises it (allocation, append, rename into a new
+/// directory, the page fault of a mapped temp file), not where a fault plan puts it.
+fn gen_full_disk(rng: &mut Rng) -> Value {
+    // every key is changed by at most one call of the traced client (the oracle settles a failed call by looking at
+    // the key afterwards); values are shared freely
+    let keys: Vec<String> = (0..12).map(|i| if i == 1 { "k1-\u{e9}".to_string() } else { format!("k{i}") }).collect();
+    let kb = *rng.pick(&[128u64, 256, 512, 1024]);
+    let mut vals = Vec::new();
+    for _ in 0..4 {
+        let len = *rng.pick(&[2_000u64, 30_000, 70_000, 150_000, 300_000, 600_000]);
+        vals.push(json!({"seed": rng.next_u64() >> 1, "len": len}));
+    }
+    vals.push(json!({"seed": rng.next_u64() >> 1, "len": 900}));
+    let f = client_flavs()[rng.idx(5)];
+    // two small entries exist before the disk fills up
+    let prelude = vec![
+        json!({"k":"api","op":"write","entry":"write","key":10,"val":4,"bin":"sync","mode":"sync"}),
+        json!({"k":"api","op":"write","entry":"write","key":11,"val":4,"bin":"sync","mode":"sync"}),
+    ];
+    let mut steps = Vec::new();
+    let n = rng.range(4, 9) as usize;
+    let mut removed10 = false;
+    let mut removed11 = false;
+    for ki in 0..n {
+        let vi = rng.idx(4);
+        let len = vals[vi]["len"].as_u64().unwrap_or(0);
+        let mut st = match rng.below(10) {
+            0..=5 => {
+                let entry = *rng.pick(&["write", "opts", "opts", "create"]);
+                let mut w = json!({"k":"api","op":"write","entry":entry,"key":ki,"val":vi});
+                if entry == "opts" {
+                    // a declared size takes the preallocate-and-map path up to 1 MiB
+                    w["opts"] = if rng.chance(2, 3) { json!({"size": len}) } else { json!({}) };
+                }
+                if entry != "write" && rng.chance(1, 2) {
+                    let a = rng.range(1, len - 1);
+                    w["chunks"] = json!([a, len - a]);
+                }
+                w
+            }
+            6 => json!({"k":"api","op":"write","entry":"write","val":vi}),
+            7 if !removed10 => {
+                removed10 = true;
+                json!({"k":"api","op":"remove","key":10})
+            }
+            8 if !removed11 => {
+                removed11 = true;
+                json!({"k":"api","op":"remove_opts","fully":false,"key":11})
+            }
+            _ => json!({"k":"api","op":"read","key":*rng.pick(&[10usize, 11])}),
+        };
+        st["mode"] = json!(f.1);
+        steps.push(st);
+    }
+    let mut post = Vec::new();
+    for fl in PURE {
+        post.push(json!({"k":"audit","bin":fl.0,"mode":fl.1,"what":["metadata","read","list"]}));
+    }
+    json!({"keys":keys,"vals":vals,"cache_style":"tiny_fs","tiny_fs_kb":kb,"prelude":prelude,"clients":[{"bin":f.0,"steps":steps}],"post":post,
+           "plan":{"kind":"single","faults":[],"schedule":{"policy":"first"}},"oracle":"natural"})
+}
+
 fn gen_c13(rng: &mut Rng, r: u64) -> Value {
+    if r % 12 == 5 {
+        return gen_full_disk(rng);
+    }
     let keys = vec!["k0".to_string(), "k1-\u{e9}".to_string(), "never".to_string()];
     let big_content = rng.chance(1, 4);
     let len0 = if big_content { *rng.pick(&[20_000u64, 70_000, 1048577]) } else { *rng.pick(&[0u64, 9, 300, 5000]) };
